@@ -450,11 +450,13 @@ def thr_refill_runs(ctx, binp):
         mn, preview = 1, rng.choice([0, 1])
         trig = [fps, 1, 2 * fps, 2][k % 4]
         bucket_s, refill_s = mn + preview + rng.choice([2, 3]), rng.choice([1, 2])    # room for more than one minimum-length recording
+        if k == 0:
+            fps, refill_s, trig = 9, 1, 9       # trigger-frames = fps with a fast refill: the earned budget dominates the bucket
         settings = dict(min=mn, max=rng.choice([mn, mn + 3]), preview=preview, const=(k % 2 == 0), throttle=True, bucket="%ds" % bucket_s,
                         refill="%ds" % refill_s, motion=dict(FIXED_MOTION, **{"trigger-frames": trig}))
         w, h = 4, 3
         fsize = 640 + 2 * w * h
-        n = 260
+        n = 450 if k == 0 else 260
         payload, pace = bytearray(), []
         for i in range(1, n + 1):
             payload += lepton_frame(w, h, i, 300 if i % 2 else 200, 60000 + i * 100)     # continuous motion
